@@ -265,6 +265,7 @@ func checkC07(cc Case, r *simrt.Result) *Outcome {
 	lateTask := 0
 	pendingAtCancel := 0
 	reqs, answers := 0, 0
+	lateDo := 0
 	tracerDoneStep := int64(-1)
 	for _, ev := range hist {
 		switch ev.Kind {
@@ -291,6 +292,10 @@ func checkC07(cc Case, r *simrt.Result) *Outcome {
 			waits++
 		case "complete":
 			waitRets++
+		case "late-do-call":
+			lateDo++
+		case "late-do-ret":
+			lateDo--
 		case "tracer-done":
 			tracerDone = true
 			tracerDoneStep = ev.Step
@@ -307,6 +312,9 @@ func checkC07(cc Case, r *simrt.Result) *Outcome {
 	}
 	if r.Horizon {
 		vl.add("C07/harness", "simulated-time horizon hit")
+	}
+	if ended && lateDo > 0 {
+		vl.add("C07/do-blocked", "%d TaskTrace.Do call(s) issued after the cancel on requests that had been left open have not returned: an answer must never block its caller", lateDo)
 	}
 	if ended {
 		if waitRets < waits {
@@ -365,6 +373,7 @@ func checkC07(cc Case, r *simrt.Result) *Outcome {
 	probe(o, "cancel-landed-mid-flight", cancelN > 0)
 	probe(o, "cancel-while-task-pending", cancelN > 0 && pendingAtCancel > 0)
 	probe(o, "cancel-after-rest", cancelN == 0)
+	probe(o, "answers-after-the-cancel-on-requests-left-open", c.env.FaultCounts()["answers-after-the-cancel"] > 0)
 	probe(o, "instance-set-going-through-its-throw-events", c.StartMode == 3 && reqs > 0)
 	probe(o, "instance-never-started", c.StartMode == 4)
 	probe(o, "event-nodes-present", c.Meta["c07family"] >= 2)
